@@ -1098,6 +1098,121 @@ def render_smoke(table, title):
 
 
 # ----------------------------------------------------------------------------
+# (c') the status COMMAND LINE on several study directories
+# ----------------------------------------------------------------------------
+QUICK_CLI, THOROUGH_CLI = 4, 44          # groups; one group = 1 multi-directory + k single-directory invocations
+LAUNCHER = os.path.join(common.VERIF, "harness", "e2e_launcher.py")
+
+
+def gen_cli_group(rng, gi):
+    """2 or 3 studies with step names distinct across the studies (fixed width,
+    alphanumeric: no name is a substring of another, no rich markup)."""
+    k = rng.choice([2, 2, 3])
+    studies = []
+    for si in range(k):
+        c = gen_case(rng, "plain", n=rng.choice([1, 2, 3, 5]))
+        tag = "g%dq%s" % (gi % 10, "abc"[si])
+        for i, nd in enumerate(c["nodes"]):
+            nd["name"] = "%s%02dz" % (tag, i)
+            nd["ws"] = os.path.join("/o/study", nd["name"])
+            nd.pop("pre", None)
+        c["dir"] = "std%s%dx%d" % ("ABC"[si], gi, rng.randrange(1000))
+        studies.append(c)
+    # every layout (None = the command's default) comes round every four groups
+    return {"layout": ["flat", "legacy", "narrow", None][gi % 4], "studies": studies}
+
+
+def _cli(argv_tail, cwd):
+    env = dict(os.environ, PYTHONPATH=common.REPO + ":" + common.VERIF, COLUMNS="400", LINES="50", NO_COLOR="1",
+               TERM="dumb")
+    try:
+        p = subprocess.run([sys.executable, LAUNCHER, "maestro", "status", "--disable-pager"] + argv_tail,
+                           cwd=cwd, env=env, stdout=subprocess.PIPE, stderr=subprocess.PIPE, text=True, timeout=120)
+        return p.returncode, p.stdout, p.stderr
+    except subprocess.TimeoutExpired:
+        return 124, "", "timeout"
+
+
+def cli_group_problems(group, root):
+    """Write the studies' status.csv with the REAL writer, run the REAL command
+    line.  -> (list of problems, number of invocations).  Rendering-agnostic
+    oracle: exit code 0; the output segment of each study (split at the
+    directory names, in the order given) names every step of that study and
+    none of another; `status A B ..` prints what `status A`, `status B`, ..
+    print one after the other."""
+    from concurrent.futures import ThreadPoolExecutor
+    shutil.rmtree(root, ignore_errors=True)
+    os.makedirs(root)
+    dirs, names = [], []
+    for c in group["studies"]:
+        d = os.path.join(root, c["dir"])
+        os.makedirs(d)
+        g = build_graph(c)
+        apply_records(g, c["nodes"], "final")
+        g.write_status(d)
+        dirs.append(c["dir"])
+        names.append([nd["name"] for nd in c["nodes"]])
+    lay = ["--layout", group["layout"]] if group["layout"] else []
+    jobs = [lay + dirs] + [lay + [d] for d in dirs]
+    with ThreadPoolExecutor(max_workers=len(jobs)) as ex:
+        outs = list(ex.map(lambda a: _cli(a, root), jobs))
+    probs = []
+    for a, (rc, so, se) in zip(jobs, outs):
+        if rc != 0:
+            probs.append("`maestro status %s` exited %d: %s" % (" ".join(a), rc, se.strip()[-300:]))
+    if probs:
+        return probs, len(jobs)
+    multi = outs[0][1]
+    lines = multi.split("\n")
+    starts = []
+    for d in dirs:
+        idx = [i for i, l in enumerate(lines) if d in l]
+        starts.append(idx[0] if idx else None)
+    if any(x is None for x in starts) or starts != sorted(starts) or len(set(starts)) != len(starts):
+        probs.append("`maestro status %s`: the studies' titles do not appear once each in the order given "
+                     "(title lines %s)" % (" ".join(jobs[0]), starts))
+    else:
+        for i, d in enumerate(dirs):
+            seg = "\n".join(lines[starts[i]:(starts[i + 1] if i + 1 < len(dirs) else len(lines))])
+            for j, ns in enumerate(names):
+                for nm in ns:
+                    if i == j and nm not in seg:
+                        probs.append("`maestro status %s`: the report for %s does not show its step %s"
+                                     % (" ".join(jobs[0]), d, nm))
+                    if i != j and nm in seg:
+                        probs.append("`maestro status %s`: the report for %s shows step %s of study %s"
+                                     % (" ".join(jobs[0]), d, nm, dirs[j]))
+    singles = "".join(o[1] for o in outs[1:])
+    if multi != singles:
+        probs.append("`maestro status %s` does not print what the single-directory invocations print one after "
+                     "the other (%d vs %d characters)" % (" ".join(jobs[0]), len(multi), len(singles)))
+    return probs, len(jobs)
+
+
+def check_cli(ck, rng, ngroups):
+    root = os.path.join(WORKDIR, "cli")
+    stat = {"groups": 0, "invocations": 0, "layouts": {}, "problems": 0}
+    for gi in range(ngroups):
+        group = gen_cli_group(rng, gi)
+        probs, n = cli_group_problems(group, os.path.join(root, "r%d" % gi))
+        stat["groups"] += 1
+        stat["invocations"] += n
+        lay = group["layout"] or "default(flat)"
+        stat["layouts"][lay] = stat["layouts"].get(lay, 0) + 1
+        ck.count("cli:%d:%s" % (gi, json.dumps(group, sort_keys=True)[:2000]), nontrivial=True, n=n)
+        if probs:
+            stat["problems"] += len(probs)
+            if stat["problems"] <= 40:
+                ck.violation("the status command does not reproduce each study's table: " + "; ".join(probs[:4]),
+                             {"cli": group, "directories": [c["dir"] for c in group["studies"]],
+                              "argv": ["maestro", "status", "--disable-pager"] +
+                                      (["--layout", group["layout"]] if group["layout"] else []) +
+                                      [c["dir"] for c in group["studies"]]})
+    shutil.rmtree(root, ignore_errors=True)
+    ck.notes["status_cli"] = stat
+
+
+# ----------------------------------------------------------------------------
 # the check
 # ----------------------------------------------------------------------------
 def load_corpus():
@@ -1358,6 +1473,9 @@ def run(ck):
     ck.count("renderers", nontrivial=False, n=rendered)
 
     phase("renderers")
+    # (c') the command line on several directories
+    check_cli(ck, rng, THOROUGH_CLI if thorough else QUICK_CLI)
+    phase("status-cli")
     # (b') Timeout branches against the model (thorough: the code's real 10 s)
     check_timeout_scenario(ck, real_timeout=thorough)
     phase("timeout-scenario")
@@ -1389,6 +1507,11 @@ def run(ck):
         "poll the real write_status + Conductor.get_status run; one case per poll = (graph, the implementation's own "
         "records, status.csv, returned dict, adapter submissions so far); distinct by that tuple, non-trivial once a "
         "job was submitted.")
+    ck.cov["rule"] += (
+        " Status-CLI stream: 2-3 generated studies (distinct fixed-width step names) written by the real writer "
+        "into separate directories; the real `maestro status [--layout L] dirA dirB [dirC]` and the single-directory "
+        "invocations run as sub-processes (maestrowf.maestro.main); exit 0, per-study segment shows exactly that "
+        "study's steps, multi-directory output = concatenation of the single-directory outputs.")
     ck.cov["traces_validated_against_impl"] = len(usable) + len(husable)
     ck.cov["input_distribution"] = hist
     ck.assumptions.append(
@@ -1442,6 +1565,12 @@ def replay(ck, path):
     os.makedirs(WORKDIR, exist_ok=True)
     doc = json.load(open(path))
     case = doc.get("case", doc)
+    if isinstance(case, dict) and "cli" in case:
+        probs, n = cli_group_problems(case["cli"], os.path.join(WORKDIR, "cli_replay"))
+        print("studies written by the real writer into:", os.path.join(WORKDIR, "cli_replay"),
+              [c["dir"] for c in case["cli"]["studies"]])
+        print("%d invocations of `maestro status`; problems: %s" % (n, json.dumps(probs, indent=1)))
+        return 1 if probs else 0
     if isinstance(case, dict) and "hist" in case:
         polls = replay_history(case)
         rc = 0
